@@ -339,6 +339,34 @@ def handleEncWin (a : Args) : String :=
       s!"ok {tr.length} {traceHash dict tr}"
   | _, _, _, _, _ => "bad-op"
 
+open EncWindow in
+/-- `encwin.script dict=<n> eb=<extra_size_before> ea=<extra_size_after> nice=<n> mlmax=<n> bt4=<0|1> ops=<op:n,op:n,…> [pinned=1]`
+    → `ok <number of operations> <fnv32 of the logged (read_pos, read_limit, write_pos, pending_size)> low=<0|1>`.
+
+    The model of the Rust hook `verif_hooks::lz_window_script`: the window model (`Model/EncWindow.lean`, positions
+    only) is driven by the script - `0:n` one `fill_window` call offering `n` bytes, `1:_` `set_flushing`, `2:_`
+    `set_finishing`, `3:n` at most `n` times `if has_enough_data(0) { skip(1) }` - and the four positions are logged
+    after every operation, exactly as the hook logs them from the real `LZEncoder`.  `low=1` says the match finder was
+    (re-)run at a position with less than `min(keep_size_before - 1, position)` bytes of history in the buffer (never,
+    by `flush_runs_keep_history`); `pinned=1` runs the `move_window` statement as it was before the repair. -/
+def handleEncWinScript (a : Args) : String :=
+  let ops : Option (List (Nat × Nat)) :=
+    (a.get? "ops").bind fun s =>
+      if s == "-" then some [] else
+      (s.splitOn ",").mapM fun t =>
+        match (t.splitOn ":").mapM String.toNat? with
+        | some [op, x] => some (op, x)
+        | _ => none
+  match a.nat? "dict", a.nat? "eb", a.nat? "ea", a.nat? "nice", a.nat? "mlmax", a.nat? "bt4", ops with
+  | some dict, some eb, some ea, some nice, some mlmax, some bt4, some ops =>
+    let P : Params :=
+      { dictSize := dict, extraBefore := eb, extraAfter := ea, matchLenMax := mlmax, niceLen := nice
+        reqFlush := if bt4 != 0 then nice else 4
+        reqFinish := 4, maxAhead := 0, lzma2 := false, pinnedMove := a.nat? "pinned" == some 1 }
+    let r := scriptRun P ops
+    s!"ok {ops.length} {r.2} low={if r.1.low then 1 else 0}"
+  | _, _, _, _, _, _, _ => "bad-op"
+
 /-- `lzdec.run dict=<n> preset=<hex|-|empty> ops=<op:a:b,op:a:b,…|->`: the model of the Rust hook
     `verif_hooks::lz_decoder_script(dict, preset, script)`; `preset=-` is `None`, `preset=empty` is `Some(&[])`;
     every op is a triple of decimal numbers `op:a:b` (0 set_limit a, 1 put_byte a, 2 repeat a b, 3 repeat_pending,
@@ -439,6 +467,7 @@ def handle (cmd : String) (a : Args) : String :=
   | "mf.trace" => if a.get? "kind" == some "bt4" then handleMfBt4 a else handleMfTraceHc4 a
   | "lzdec.run" => handleLzDec a
   | "encwin.trace" => handleEncWin a
+  | "encwin.script" => handleEncWinScript a
   | "bcj2.enc" | "bcj2.dec" => handleBcj2 cmd a
   | "split.xz" | "split.lzip" | "split.mt" => handleSplit cmd a
   | "lzma.expected" => handleExpected a
